@@ -11,6 +11,9 @@ pub fn gen_case(profile: &str, rng: &mut Rng, out: &mut String) -> bool {
         "C07" => super::c01::gen_case(rng, out, true),
         "C08" => super::c02::gen_case(rng, out, true),
         "C09" => super::c09::gen_case(rng, out),
+        "C10" => super::c10::gen_case(rng, out),
+        "C11" => super::c11::gen_case(rng, out),
+        "C12" => super::c12::gen_case(rng, out),
         "C15" => super::c15::gen_case(rng, out),
         "C16" => super::c16::gen_case(rng, out),
         "C17" => super::c17::gen_case(rng, out),
